@@ -80,6 +80,8 @@ pub struct Cfg {
     pub reread_held: bool,
     /// Offer CloneHeld (once per history).
     pub clone_held: bool,
+    /// Explicit closes stay in flight until the explorer completes them.
+    pub hold_close: bool,
     /// The pool has already performed this many releases (multiple of the pool size).
     pub pool_shift: u16,
 }
@@ -112,6 +114,7 @@ impl Cfg {
             final_drop_ring_first: false,
             sqpoll: false,
             zc_error_notif: true,
+            hold_close: false,
             clone_held: false,
             reread_held: false,
             held_letters: false,
@@ -282,7 +285,14 @@ impl OpsWorld {
         let plan = simk::SetupPlan { c0_sq: cfg.c0_sq, c0_cq: cfg.c0_cq, ..Default::default() };
         simk::reset(plan);
         crate::mapwatch::watch_fd(-1);
-        simk::with(|k| k.zc_error_notif = cfg.zc_error_notif);
+        simk::with(|k| {
+            k.zc_error_notif = cfg.zc_error_notif;
+            k.hold_user_close = cfg.hold_close;
+            if cfg.final_drop_ring_first {
+                // A notification still outstanding when the Ring goes away could never be reclaimed.
+                k.zc_cancel_notif_immediate = true;
+            }
+        });
         talloc::set_on_free(Some(simk::on_free));
         let need_pool = cfg.kinds.iter().chain(cfg.preset.iter()).any(|k| k.needs_pool());
         let need_table = cfg.direct_table.is_some();
@@ -471,6 +481,20 @@ impl OpsWorld {
             match ev {
                 simk::Event::Consumed { sqe, serial, .. } => {
                     let ud = sqe.user_data();
+                    // A read into a pool buffer that already holds data may only target the spare part of that buffer.
+                    if let Some(s) = self.slots.iter().find(|s| s.ud == Some(ud) && s.kind == Kind::RereadHeld) {
+                        let targets: Vec<(usize, usize)> = simk::with(|k| k.req(serial).foot.iter().filter(|f| f.write && matches!(f.what, "buffer" | "iovec-target") && f.len > 0).map(|f| (f.addr, f.len)).collect());
+                        let own = targets.first().and_then(|(a, _)| self.pool_bufs.iter().find(|(base, len)| *a >= *base && *a <= *base + *len as usize)).copied();
+                        let ok = match own {
+                            Some((base, len)) => targets.len() == 1 && targets[0].0 == base + s.prefix.len() && targets[0].0 + targets[0].1 <= base + len as usize,
+                            None => targets.is_empty(),
+                        };
+                        if !ok {
+                            let msg = format!("a read into a pool buffer holding {} bytes lets the kernel write {targets:x?}; its buffer is {own:x?}", s.prefix.len());
+                            let prop = if self.cfg.prop == "C01" { "C01" } else { "C08" };
+                            self.report(prop, "reread-outside-buffer", msg);
+                        }
+                    }
                     if let Some(s) = self.slots.iter_mut().find(|s| s.ud == Some(ud)) {
                         s.n_sqes += 1;
                         match &s.first_sqe {
@@ -555,7 +579,9 @@ impl OpsWorld {
             }
         };
         match kind {
-            ReadVec | Recv | ReadLimited | ReadN | RecvN => format!("bytes:{}", hx(&out.data)),
+            ReadVec | Recv | ReadLimited | ReadN | RecvN | ReadVecFrom | RecvPeek => format!("bytes:{}", hx(&out.data)),
+            ReadVectoredFrom => format!("bytes:{}", split(&[3, 4 + nth]).join("|")),
+            RecvFromPeek => format!("bytes:{}:from:{}:flags:0", hx(&out.data), addr()),
             ReadNVectored => format!("bytes:{}", split(&[3, 5]).join("|")),
             ReadVecPrefilled => format!("bytes:eeef{}", hx(&out.data)),
             ReadVectored2 => format!("bytes:{}", split(&[3, 4 + nth]).join("|")),
@@ -563,8 +589,9 @@ impl OpsWorld {
             RecvFrom => format!("bytes:{}:from:{}:flags:0", hx(&out.data), addr()),
             RecvFromVectored => format!("bytes:{}:from:{}:flags:0", split(&[2, 3]).join("|"), addr()),
             WriteVec | WriteStatic | WriteString | WriteBoxed | WriteArc | WriteVectored2 | WriteVectoredTuple | Send
-            | SendZc | SendTo | SendToZc | SendVectored | SendVectoredZc | SpliceTo | SpliceFrom | SendToVectored => format!("n:{}", out.res),
-            ReadPool | RecvPool | MultishotRead | MultishotRecv => format!("buf:{}", hx(&out.data)),
+            | SendZc | SendTo | SendToZc | SendVectored | SendVectoredZc | SpliceTo | SpliceFrom | SendToVectored | WriteVecAt
+            | WriteVectoredAt | SendMore | SendZcMore | SendToMore => format!("n:{}", out.res),
+            ReadPool | RecvPool | MultishotRead | MultishotRecv | RecvPoolWaitAll | MultishotRecvPeek => format!("buf:{}", hx(&out.data)),
             RecvFromPool => format!("buf:{}:from:{}:flags:0", hx(&out.data), addr()),
             OpenExtract => format!("fd:File:{}:path:/verif-simk/xfile{nth}", out.res),
             CreateDirExtract => "path:/verif-simk/xdir".to_string(),
@@ -1485,6 +1512,59 @@ impl World for OpsWorld {
 }
 
 impl OpsWorld {
+    /// Epilogue variant: the futures are gone, now the Ring is dropped at once -- with whatever is
+    /// queued or in flight -- and only then everything else. Judged: memory safety and C06's
+    /// "released exactly once, never leaked ... when the Ring is dropped".
+    fn finish_ring_first(&mut self) -> Vec<Violation> {
+        let ring = self.ring.take();
+        talloc::track(|| drop(ring));
+        self.absorb_kernel_log();
+        if !self.violations.is_empty() {
+            return self.bail();
+        }
+        talloc::track(|| {
+            for s in &self.slots {
+                s.held.0.borrow_mut().clear();
+                s.held.1.borrow_mut().clear();
+            }
+            if let Some(fd) = self.fd.take() {
+                drop(unsafe { Box::from_raw(std::ptr::from_ref(fd).cast_mut()) });
+            }
+            if let Some(fd) = self.fd_regular.take() {
+                drop(unsafe { Box::from_raw(std::ptr::from_ref(fd).cast_mut()) });
+            }
+            self.pool = None;
+        });
+        let sq = self.sq.take();
+        talloc::track(|| drop(sq));
+        let viol = simk::with(|k| std::mem::take(&mut k.violations));
+        for (class, msg) in viol {
+            let prop = if class.starts_with("sq-") { "C04" } else if class.starts_with("close-") { "C07" } else { "C01" };
+            self.report(prop, &class, msg);
+        }
+        // The kernel cancelled everything when asked to (the default); nothing can be outstanding.
+        let (outstanding, awaiting_notif) = simk::with(|k| {
+            let infl = k.inflight();
+            (infl.len(), infl.iter().filter(|s| k.req(**s).awaiting_notif).count())
+        });
+        simk::shutdown();
+        let rep = talloc::disarm();
+        if rep.double_frees > 0 {
+            let b = rep.first_double_free.unwrap();
+            self.report("C06", "double-free", format!("block #{} ({} bytes) freed twice", b.serial, b.size));
+        }
+        // A zero-copy notification the kernel has not posted yet (it still uses the buffer) can no
+        // longer be received: what that operation owns cannot be released by anyone.
+        if !rep.leaked.is_empty() && awaiting_notif == 0 {
+            // (The simulated kernel cancels whatever it is asked to: an operation still running now was
+            // started after, or never covered by, the Ring's final cancellation.)
+            let kinds: Vec<String> = self.slots.iter().map(|s| format!("{:?}", s.kind)).collect();
+            let total: usize = rep.leaked.iter().map(|b| b.size).sum();
+            self.report("C06", "leak/ring-dropped-first", format!("{} block(s), {total} bytes still allocated after the futures, then the Ring, then everything else were dropped; {outstanding} operation(s) still running in the kernel (ops: {kinds:?})", rep.leaked.len()));
+        }
+        std::mem::take(&mut self.violations)
+    }
+
     /// Stop here: something broke, leak what is left.
     fn bail(&mut self) -> Vec<Violation> {
         simk::shutdown();
@@ -1504,6 +1584,9 @@ impl OpsWorld {
         }
         if let Some((op, _, _)) = self.canary.take() {
             talloc::track(|| drop(op));
+        }
+        if self.cfg.final_drop_ring_first {
+            return self.finish_ring_first();
         }
         // 2: kernel answers everything outstanding (cancel requests first).
         for _ in 0..8 {
